@@ -497,6 +497,9 @@ def _d3(chk, fb, M):
                 rg = _range(fun, v[0]["decl"]["id"], a) if v else None
                 if rg is not None and str(rg[0]) == "0" and str(rg[1]) in ("F_n", "F_m"):
                     chk.proved("D3", d.key, "det-range", d.loc(a), "all diagonal entries [0, n)")
+                elif rg is None:
+                    # a loop E2 does not summarise (while with '!=', iterator forms): the range is not read, nothing is claimed
+                    chk.unknown("D3", d.key, "det-range", d.loc(a), "the range of the diagonal product is not in a form the bound analysis reads")
                 else:
                     chk.refuted("D3", d.key, "det-range", d.loc(a), "det() multiplies the diagonal entries over %s instead of [0, n)" % (rg,), witness={"input": "diag(2, 3): det 6"})
 
